@@ -50,3 +50,104 @@ func VH_C05_dict_int8(cp int) {
 	zzvrt.Cover("both-negative", k0 < 0 && k1 < 0)
 	zzvrt.ObserveInt("n", len(keys))
 }
+
+func vBitLen(n int) int {
+	l := 0
+	for n > 0 {
+		l++
+		n >>= 1
+	}
+	return l
+}
+
+// hml_long$10 n:(#<= m) s:(n * Bit)
+func vLongLabel(c *boc.Cell, bits uint64, n int, m int) {
+	_ = c.WriteUint(2, 2)
+	_ = c.WriteUint(uint64(n), vBitLen(m))
+	_ = c.WriteUint(bits, n)
+}
+
+// An augmented dictionary (HashmapAug 8 Uint8 Uint16) written by ANOTHER implementation, laid out by
+// hand from block.tlb: ahm_edge label node; ahmn_fork left right extra; ahmn_leaf extra value.  Two
+// keys sharing exactly cp leading bits (prefix symbolic), long labels everywhere.  Decoding yields
+// the two keys in ascending order with their values and the tree of extras.
+func VH_C05_hashmap_aug(cp int) {
+	prefix := uint64(zzvrt.NondetByte("prefix")) >> uint(8-cp)
+	rest := 8 - cp - 1
+	tail0 := uint64(zzvrt.NondetByte("tail0")) & (1<<uint(rest) - 1)
+	tail1 := uint64(zzvrt.NondetByte("tail1")) & (1<<uint(rest) - 1)
+	k0 := prefix<<uint(8-cp) | tail0
+	k1 := prefix<<uint(8-cp) | 1<<uint(rest) | tail1
+	v0, v1 := zzvrt.NondetByte("v0"), zzvrt.NondetByte("v1")
+	e, e0, e1 := zzvrt.NondetU16("e"), zzvrt.NondetU16("e0"), zzvrt.NondetU16("e1")
+	leaf := func(tail uint64, extra uint16, val byte) *boc.Cell {
+		c := boc.NewCell()
+		vLongLabel(c, tail, rest, rest)
+		_ = c.WriteUint(uint64(extra), 16)
+		_ = c.WriteUint(uint64(val), 8)
+		return c
+	}
+	root := boc.NewCell()
+	vLongLabel(root, prefix, cp, 8)
+	_ = root.AddRef(leaf(tail0, e0, v0))
+	_ = root.AddRef(leaf(tail1, e1, v1))
+	_ = root.WriteUint(uint64(e), 16)
+	var h HashmapAug[Uint8, Uint8, Uint16]
+	err := Unmarshal(root, &h)
+	zzvrt.Assert("decode-ok", err == nil)
+	if err != nil {
+		return
+	}
+	zzvrt.Assert("two-entries", len(h.keys) == 2 && len(h.values) == 2)
+	if len(h.keys) == 2 && len(h.values) == 2 {
+		zzvrt.Assert("keys-ascending", uint64(h.keys[0]) == k0 && uint64(h.keys[1]) == k1)
+		zzvrt.Assert("values-follow-keys", byte(h.values[0]) == v0 && byte(h.values[1]) == v1)
+	}
+	zzvrt.Assert("root-extra", uint16(h.extra.Data) == e)
+	zzvrt.Assert("child-extras", h.extra.Left != nil && h.extra.Right != nil && uint16(h.extra.Left.Data) == e0 && uint16(h.extra.Right.Data) == e1)
+	zzvrt.Cover("reached", true)
+	zzvrt.ObserveInt("n", len(h.keys))
+}
+
+// Three distinct unsigned 8-bit keys k0 < k1 < k2 whose neighbours share exactly a and b leading bits
+// (a != b: the instance parameters fix the shape of the tree), inserted in two different orders:
+// the two cells have the same hash, and the decoded dictionary lists exactly the three pairs in
+// ascending order; Get agrees for present keys and for an absent one.
+func VH_C05_dict_three(a int, b int) {
+	k0, k1, k2 := zzvrt.NondetByte("k0"), zzvrt.NondetByte("k1"), zzvrt.NondetByte("k2")
+	zzvrt.Assume(k0 < k1 && k1 < k2)
+	zzvrt.Assume((k0^k1)>>uint(7-a) == 1)
+	zzvrt.Assume((k1^k2)>>uint(7-b) == 1)
+	v0, v1, v2 := Uint8(zzvrt.NondetByte("v0")), Uint8(zzvrt.NondetByte("v1")), Uint8(zzvrt.NondetByte("v2"))
+	var h, g HashmapE[Uint8, Uint8]
+	h.Put(Uint8(k0), v0)
+	h.Put(Uint8(k1), v1)
+	h.Put(Uint8(k2), v2)
+	g.Put(Uint8(k2), v2)
+	g.Put(Uint8(k0), v0)
+	g.Put(Uint8(k1), v1)
+	c := boc.NewCell()
+	zzvrt.Assert("marshal-ok", Marshal(c, h) == nil)
+	c2 := boc.NewCell()
+	zzvrt.Assert("marshal2-ok", Marshal(c2, g) == nil)
+	h1, _ := c.Hash256()
+	h2, _ := c2.Hash256()
+	zzvrt.Assert("insertion-order-independent", h1 == h2)
+	var d HashmapE[Uint8, Uint8]
+	zzvrt.Assert("unmarshal-ok", Unmarshal(c, &d) == nil)
+	keys := d.Keys()
+	vals := d.Values()
+	zzvrt.Assert("three-pairs", len(keys) == 3 && len(vals) == 3)
+	if len(keys) == 3 && len(vals) == 3 {
+		zzvrt.Assert("ascending-keys", byte(keys[0]) == k0 && byte(keys[1]) == k1 && byte(keys[2]) == k2)
+		zzvrt.Assert("values-follow-keys", vals[0] == v0 && vals[1] == v1 && vals[2] == v2)
+	}
+	x, ok := d.Get(Uint8(k1))
+	zzvrt.Assert("get-middle", ok && x == v1)
+	absent := zzvrt.NondetByte("absent")
+	zzvrt.Assume(absent != k0 && absent != k1 && absent != k2)
+	_, ok = d.Get(Uint8(absent))
+	zzvrt.Assert("absent-not-found", !ok)
+	zzvrt.Cover("reached", true)
+	zzvrt.ObserveInt("n", len(keys))
+}
